@@ -318,6 +318,92 @@ def usage_run(k, sit):
     return r
 
 
+def terminal_runs(rep):
+    """ddSMT on a terminal (stdout and stderr are a pseudo terminal, which
+    switches the progress display on) with -v: inputs without any node, and
+    an input that a command accepting everything reduces to nothing."""
+    import pty
+    import select
+    import subprocess
+    base = common.subscratch('c04-tty')
+    cmd = os.path.join(base, 'always.sh')
+    with open(cmd, 'w') as f:
+        f.write('#!/bin/sh\necho bug\nexit 1\n')
+    os.chmod(cmd, 0o755)
+    sits = []
+    for text in ('', '\n  \n', '; only a comment\n',
+                 '(assert a)\n(check-sat)\n'):
+        for st in ('hierarchical', 'hybrid', 'ddmin'):
+            for v in (['-v'], ['-vv'] if st == 'hierarchical' else []):
+                if v:
+                    sits.append((text, st, v))
+
+    def one(k):
+        text, st, v = sits[k]
+        wd = os.path.join(base, f't{k}')
+        os.makedirs(os.path.join(wd, 'tmp'))
+        inf = os.path.join(wd, 'in.smt2')
+        with open(inf, 'w') as f:
+            f.write(text)
+        env = dict(os.environ, PYTHONPATH=common.REPO, TMPDIR=os.path.join(
+            wd, 'tmp'), PYTHONDONTWRITEBYTECODE='1', TERM='xterm')
+        m, sl = pty.openpty()
+        p = subprocess.Popen(
+            [common.PY, '-m', 'ddsmt', '--strategy', st, '-j', '2'] + v +
+            [inf, os.path.join(wd, 'out.smt2'), cmd],
+            cwd=wd, env=env, stdin=subprocess.DEVNULL, stdout=sl, stderr=sl,
+            start_new_session=True)
+        os.close(sl)
+        out = b''
+        t0 = time.time()
+        limit = runs.time_limit(120)
+        while time.time() - t0 < limit:
+            r, _, _ = select.select([m], [], [], 0.5)
+            if r:
+                try:
+                    d = os.read(m, 65536)
+                except OSError:
+                    break
+                if not d:
+                    break
+                out += d
+            elif p.poll() is not None:
+                break
+        hung = p.poll() is None
+        if hung:
+            try:
+                os.killpg(p.pid, 9)
+            except OSError:
+                pass
+        p.wait()
+        os.close(m)
+        return p.returncode, hung, out.decode('utf-8', 'replace')
+
+    from concurrent.futures import ThreadPoolExecutor
+    with ThreadPoolExecutor(8) as ex:
+        res = list(ex.map(one, range(len(sits))))
+    for (text, st, v), (rc, hung, out) in zip(sits, res):
+        rep.count()
+        rep.nontrivial('tty:' + json.dumps([text, st, v]))
+        sig = f'terminal:{st}:{"".join(v)}:{json.dumps(text)}'
+        rp = {'terminal': True, 'input': text, 'strategy': st, 'verbosity': v}
+        if hung:
+            rep.violation('hang-' + sig, f'no exit on a terminal: input '
+                          f'{text!r}, --strategy {st} {v}', rp)
+        elif 'Traceback (most recent call last)' in out:
+            last = [ln for ln in out.replace('\r', '\n').splitlines()
+                    if ln.strip()][-1][:200]
+            rep.violation('traceback-' + sig,
+                          f'internal error on a terminal (progress display '
+                          f'on): input {text!r}, --strategy {st} {v}: {last}',
+                          rp)
+        elif rc != 0:
+            rep.violation('status-' + sig,
+                          f'exit status {rc} for a run that completed: input '
+                          f'{text!r}, --strategy {st} {v}', rp)
+    rep.cov['terminal_runs'] = len(sits)
+
+
 def main():
     a = common.std_args()
     ddsmt_env.load()
@@ -524,6 +610,7 @@ def main():
                     f'exit status {ur.status} but completed={completed}',
                     S.replay_obj(it))
     S.cleanup(items)
+    terminal_runs(rep)
     return rep.finish()
 
 
